@@ -15,7 +15,7 @@ import torch
 from harness.lib import common as C
 from harness.drivers.C11 import py_comp, py_idx, coq_comp, FULL, exc_name, all_ints
 
-COQ_TARGETS = ["Models/C10_mvn.vo", "Proofs/C10_mvn.vo", "Models/C10_broadcast.vo"]
+COQ_TARGETS = ["Models/C10_mvn.vo", "Proofs/C10_mvn.vo", "Models/C10_broadcast.vo", "Models/C10_seq.vo", "Proofs/C10_seq.vo"]
 LEVEL_NOTE = ("theorems are about the Gallina model ((mean, cov) pairs, generic field); tie to /repo is differential: "
               "exact gathers for indexing, exact rationals + mpmath for densities (1e-8)")
 IMPORTS = ("From Coq Require Import List ZArith QArith Qcanon.\n"
@@ -25,7 +25,11 @@ BOUNDS = [None] + list(range(LO, HI + 1))
 STEPS = [None, 1, 2, 3]
 REPS = ["dense", "diag", "root", "lazysum", "broadcast", "lazybroadcast"]
 # + a lazy MVN whose MEAN has fewer batch dimensions than the covariance operator (methods only, not the index sweep)
-REPS_ALL = REPS + ["lazymeanbroadcast"]
+# + structured operators (added after the second seeding round): RootLinearOperator with a WIDE root (n x (n+2)),
+# LowRankRootAddedDiagLinearOperator, KroneckerProductLinearOperator, Kronecker + diagonal, lazy sum root + dense.
+# (the TALL, rank-deficient root is "root" without full_rank: indexing / sampling / affine only, no density)
+NEW_REPS = ["rootwide", "lowrankdiag", "kron", "kronsum", "rootsum"]
+REPS_ALL = REPS + ["lazymeanbroadcast"] + NEW_REPS
 
 torch.set_default_dtype(torch.float64)
 
@@ -38,10 +42,17 @@ def dyadic(g, *shape, den=4, rng=4):
     return torch.randint(-rng, rng + 1, shape, generator=g).double() / den
 
 
+def kron_dense(K1, K2):
+    """dense Kronecker product of (batches of) matrices, computed without linear_operator"""
+    n1, n2 = K1.shape[-1], K2.shape[-1]
+    return (K1[..., :, None, :, None] * K2[..., None, :, None, :]).reshape(*K1.shape[:-2], n1 * n2, n1 * n2)
+
+
 def make(n, bshape, rep, seed=0, full_rank=False):
     """returns (dist, mean, dense covariance expanded to the batch shape of mean)"""
     from gpytorch.distributions import MultivariateNormal as MVN
-    from linear_operator.operators import DenseLinearOperator, DiagLinearOperator, RootLinearOperator
+    from linear_operator.operators import (DenseLinearOperator, DiagLinearOperator, RootLinearOperator, LowRankRootLinearOperator,
+                                           LowRankRootAddedDiagLinearOperator, KroneckerProductLinearOperator)
     g = torch.Generator().manual_seed(seed * 7919 + 97 * n + 13 * len(bshape) + REPS_ALL.index(rep))
     bshape = tuple(bshape)
     mean = dyadic(g, *bshape, n)
@@ -71,6 +82,31 @@ def make(n, bshape, rep, seed=0, full_rank=False):
         if full_rank:
             R = R + 3 * torch.eye(n)
         covarg, cov = RootLinearOperator(R), R @ R.transpose(-1, -2)
+    elif rep in ("rootwide", "rootsum"):
+        r = n + 2 if rep == "rootwide" else n + 1                 # more columns than rows: the root is not square
+        R = dyadic(g, *cb, n, r, den=2, rng=2)
+        R[..., :n] += 3 * torch.eye(n)
+        if rep == "rootwide":
+            covarg, cov = RootLinearOperator(R), R @ R.transpose(-1, -2)
+        else:
+            covarg, cov = RootLinearOperator(R) + DenseLinearOperator(dense), R @ R.transpose(-1, -2) + dense
+    elif rep == "lowrankdiag":
+        r = max(1, n - 1)
+        R = dyadic(g, *cb, n, r, den=2, rng=2)
+        R = torch.where(R == 0, torch.full_like(R, 0.5), R)      # no zero factor (a rank-0 "low-rank" part is a degenerate operator)
+        dg = dyadic(g, *cb, n, den=8, rng=6).abs() + 0.5
+        covarg = LowRankRootAddedDiagLinearOperator(LowRankRootLinearOperator(R), DiagLinearOperator(dg))
+        cov = R @ R.transpose(-1, -2) + torch.diag_embed(dg)
+    elif rep in ("kron", "kronsum"):
+        n1 = 2 if n % 2 == 0 else 1
+        n2 = n // n1
+        A1, A2 = dyadic(g, *cb, n1, n1, den=2, rng=3), dyadic(g, *cb, n2, n2, den=2, rng=3)
+        K1 = A1 @ A1.transpose(-1, -2) / 4 + torch.eye(n1) * 1.5
+        K2 = A2 @ A2.transpose(-1, -2) / 4 + torch.eye(n2)
+        covarg, cov = KroneckerProductLinearOperator(DenseLinearOperator(K1), DenseLinearOperator(K2)), kron_dense(K1, K2)
+        if rep == "kronsum":
+            dg = dyadic(g, *cb, n, den=8, rng=6).abs() + 0.5
+            covarg, cov = covarg + DiagLinearOperator(dg), cov + torch.diag_embed(dg)
     else:
         dg = dyadic(g, *cb, n, den=8, rng=6).abs() + 0.25
         covarg, cov = DenseLinearOperator(dense) + DiagLinearOperator(dg), dense + torch.diag_embed(dg)
@@ -201,15 +237,15 @@ def run_getitem(out, ctx):
         lasts = all_ints(n) + S
         if len(lasts) != len(res):
             raise RuntimeError("family enumeration out of step with the Coq model")
-        for rep in REPS:
-            stride = 1 if rep == "dense" else (5 if tier == "quick" else 2)
+        for rep in REPS + NEW_REPS:
+            stride = 1 if rep == "dense" else ((5 if tier == "quick" else 2) if rep in REPS else (11 if tier == "quick" else 3))
             off = rng.randrange(stride)
             d, mean, cov = dist(n, brank, rep)
             for j in range(off, len(lasts), stride):
                 check_getitem(out, d, mean, cov, n, brank, pre + [lasts[j]], res[j], rep, "last-int/slice:" + rep)
         # tensors, ellipsis, batch-only, malformed
         tl = [["t", v] for v in ([0], [n - 1, 0], [-1], [0, -n], [0, 0, n - 1], list(range(n - 1, -1, -1)), [n], [])]
-        for rep in REPS:
+        for rep in REPS + NEW_REPS:
             for last in tl + ["..."]:
                 if last == "..." and "..." in pre:
                     continue
@@ -287,8 +323,15 @@ def run_density(out, ctx):
     kl_jobs, kl_cases = [], []
     for n in range(1, 5):
         for (bp, bq) in (((), ()), ((2,), (2,)), ((2,), ()), ((), (2,))):
+            # structured operators on BOTH sides: with themselves, with the dense tensor, and with a rotating partner
+            rot = lambda x, k: (REPS + NEW_REPS)[(NEW_REPS.index(x) + n + len(bp) + seed + k) % (len(REPS) + len(NEW_REPS))]  # noqa: E731
+            new_pairs = []
+            for x in NEW_REPS:
+                new_pairs += [(x, x), (x, "dense"), ("dense", x), (x, rot(x, 0)), (rot(x, 3), x)]
+                if tier != "quick":
+                    new_pairs += [(x, y) for y in REPS + NEW_REPS] + [(y, x) for y in REPS]
             for rp, rq in list(itertools.product(REPS, REPS)) + [("lazymeanbroadcast", "dense"), ("dense", "lazymeanbroadcast"),
-                                                                  ("lazymeanbroadcast", "lazymeanbroadcast")]:
+                                                                  ("lazymeanbroadcast", "lazymeanbroadcast")] + sorted(set(new_pairs)):
                 if tier == "quick" and rp in REPS and rq in REPS and (REPS.index(rp) + REPS.index(rq) + n) % 2:
                     continue
                 p, mp, cp = make(n, bp, rp, seed=seed + 11, full_rank=True)
@@ -428,7 +471,7 @@ def run_sampling_affine(out, ctx):
                 except Exception as ex:
                     out.fail("mul:%s:raises-%s" % (rep, exc_name(ex)), "d * 1 raised %r" % ex, case)
                 # sum of independent MVNs (every representation pair)
-                for rep2 in REPS:
+                for rep2 in REPS + [NEW_REPS[(n + len(bshape) + REPS_ALL.index(rep) + seed) % len(NEW_REPS)]]:
                     d2, mean2, cov2 = make(n, bshape, rep2, seed=seed + 17)
                     out.case(dict(case, what="sum", rep2=rep2), nt, label="affine:sum")
                     try:
@@ -773,12 +816,509 @@ def run_broadcast(out, ctx):
                         out.fail("expand:broadcast:%s" % rep, "expand(%s) of batch shape %s changes mean / covariance / batch_shape" % (to, bd), case)
 
 
+# --------------------------------------------------------------------------- variance clamp: dtype x default dtype x floors
+
+DT = {"float32": torch.float32, "float64": torch.float64, "float16": torch.float16}
+DT_CODE = {"float32": 0, "float64": 1, "float16": 2}
+DT_RTOL = {"float32": 4e-6, "float64": 1e-12, "float16": 4e-3}
+CLAMP_FORMS = ["tensor", "denseop", "diagop", "rootop", "lazysum", "broadcast"]
+CLAMP_FLOORS = [None, dict(float_value=1e-5, double_value=1e-9, half_value=2e-3), dict(float_value=1e-8, double_value=1e-4, half_value=1e-3)]
+
+
+def clamp_variances(rng, tdt, k):
+    """k vectors (length 1..4) of marginal variances s^2, s = m 2^e with m in {1, 1.5, 2.5, 3} (so that standard deviations and
+    covariance entries are exact in every dtype and short as rationals), spanning the min_variance floors of every dtype
+    (1e-12 .. 1e-3) and O(1)"""
+    lo = -20 if tdt != "float16" else -6
+    sq = lambda m, e: (m * 2.0 ** e) ** 2  # noqa: E731
+    #        1e-8 9e-10 1 4e-8                              3e-7 2e-11                  1e-12 5e-4 2e-3 0.5
+    fixed = [[sq(1.5, -14), sq(1, -15), 1.0, sq(1.5, -13)], [sq(2.5, -12), sq(1.5, -18)], [sq(1, -20), sq(1.5, -6), sq(1.5, -5), sq(1.5, -1)],
+             [4.0], [sq(1.5, -9), sq(2.5, -11), sq(1, -16), sq(3, -15)]]
+    if tdt == "float16":
+        fixed = [[sq(1.5, -6), sq(2.5, -6), 1.0, sq(1.5, -5) * 1.0], [sq(1, -6), 0.25]]
+    out = fixed[:max(1, k // 2)]
+    while len(out) < k:
+        out.append([sq(rng.choice([1, 1.5, 2.5, 3]), rng.randint(lo, 0)) for _ in range(rng.randint(1, 4))])
+    return out
+
+
+def clamp_build(form, mean, var, dt):
+    """(dist, model covariance rows or root rows (exact values of the tensors handed over), is_root, r) per batch element"""
+    from gpytorch.distributions import MultivariateNormal as MVN
+    from linear_operator.operators import DenseLinearOperator, DiagLinearOperator, RootLinearOperator
+    n = var.shape[-1]
+    sd = var.sqrt()
+    corr = torch.full((n, n), 0.25, dtype=dt) + 0.75 * torch.eye(n, dtype=dt)
+    cov = sd.unsqueeze(-1) * corr * sd.unsqueeze(-2)
+    if form == "tensor":
+        return MVN(mean, cov), cov, False
+    if form == "denseop":
+        return MVN(mean, DenseLinearOperator(cov)), cov, False
+    if form == "diagop":
+        return MVN(mean, DiagLinearOperator(var)), torch.diag_embed(var), False
+    if form == "rootop":
+        mix = torch.tensor([[1.0, 0.5, 0.0, 0.0, 0.25], [0.0, 1.0, 0.5, 0.0, 0.0], [0.5, 0.0, 1.0, 0.0, 0.0], [0.0, 0.0, 0.5, 1.0, 0.5]],
+                           dtype=dt)[:n, :n + 1]
+        R = sd.unsqueeze(-1) * mix
+        return MVN(mean, RootLinearOperator(R)), R, True
+    if form == "lazysum":
+        half = cov * 0.5
+        return MVN(mean, DenseLinearOperator(half) + DiagLinearOperator(half.diagonal(dim1=-1, dim2=-2))), \
+            half + torch.diag_embed(half.diagonal(dim1=-1, dim2=-2)), False
+    raise ValueError(form)
+
+
+def run_clamp(out, ctx):
+    """MultivariateNormal.variance / stddev / confidence_region / to_data_independent_dist against the Coq clamp model
+    (Models/C10_seq.v run_variance) instantiated at the floor of the TENSOR's dtype, with the process default dtype set to
+    float32 and to float64, float32 / float64 (/ float16 where torch has the kernels) distributions, default and overridden
+    settings.min_variance floors, and variances on both sides of every floor"""
+    import warnings
+    from gpytorch import settings as gs
+    tier, seed = ctx["tier"], ctx["seed"]
+    rng = random.Random(seed * 7907 + 11)
+    jobs, terms = [], []
+    saved = torch.get_default_dtype()
+    try:
+        for ddt in ("float32", "float64"):
+            torch.set_default_dtype(DT[ddt])
+            for tdt in ("float64", "float32", "float16"):
+                dt = DT[tdt]
+                for fi, fl in enumerate(CLAMP_FLOORS):
+                    forms = CLAMP_FORMS if tdt != "float16" else ["denseop", "diagop"]      # no Cholesky kernels for half on CPU
+                    for vec in clamp_variances(rng, tdt, (4 if tier == "quick" else 12) if tdt != "float16" else 2):
+                        n = len(vec)
+                        for bshape in ((), (2,)):
+                            for form in forms:
+                                var = torch.tensor(vec, dtype=dt)
+                                if bshape:
+                                    var = torch.stack([var, var.flip(-1) * 2])
+                                mean = torch.tensor([((i * 3 + 1) % 7 - 3) / 4 for i in range(n)], dtype=dt).expand(*bshape, n).clone()
+                                case = dict(what="variance-clamp", default_dtype=ddt, dtype=tdt, floors=fi, variances=vec, batch_shape=list(bshape),
+                                            form=form)
+                                key = "clamp:%s:%s:default-%s" % (form, tdt, ddt)
+                                out.case(case, True, label="clamp:%s/default-%s" % (tdt, ddt))
+                                try:
+                                    with warnings.catch_warnings(), (gs.min_variance(**fl) if fl else gs.min_variance()):
+                                        warnings.simplefilter("ignore")
+                                        floors = [gs.min_variance.value(torch.float), gs.min_variance.value(torch.double),
+                                                  gs.min_variance.value(torch.half)]
+                                        if form == "broadcast":
+                                            d, marg, isroot = clamp_build("denseop", mean[0] if bshape else mean, var[0] if bshape else var, dt)
+                                            from gpytorch.distributions import MultivariateNormal as MVN
+                                            d = MVN(mean, d.lazy_covariance_matrix)
+                                            marg = marg.expand(*bshape, *marg.shape[-2:])
+                                        else:
+                                            d, marg, isroot = clamp_build(form, mean, var, dt)
+                                        got_var = d.variance
+                                        got_sd = d.stddev
+                                        lo, hi = d.confidence_region()
+                                        var_after = d.variance
+                                        ind = d.to_data_independent_dist()
+                                        got = [got_var, got_sd, lo, hi, var_after, ind.mean, ind.stddev]
+                                except Exception as e:
+                                    out.fail(key + ":raises-" + exc_name(e), "variance / stddev / confidence_region raised %r" % e, case)
+                                    continue
+                                if any(tuple(t.shape) != tuple(bshape) + (n,) or t.dtype != dt for t in got):
+                                    out.fail(key + ":shape", "variance / stddev / confidence_region do not have shape batch x n and the dtype of "
+                                             "the distribution", case, impl=[[list(t.shape), str(t.dtype)] for t in got])
+                                    continue
+                                for b in bidx_iter(bshape):
+                                    jobs.append((case, key, [t[b].double().tolist() for t in got], mean[b].double().tolist(), len(terms)))
+                                    terms.append("(%d, %d, (%s, %s, %s), %d%%nat, %s, %d%%nat, %s)" % (
+                                        DT_CODE[ddt], DT_CODE[tdt], C.qc_lit(floors[0]), C.qc_lit(floors[1]), C.qc_lit(floors[2]), n,
+                                        "true" if isroot else "false", marg.shape[-1], C.qc_mat(marg[b].double().tolist())))
+    finally:
+        torch.set_default_dtype(saved)
+    res = C.coq_run_cases("C10_clamp", IMPORTS + "\nFrom GPV Require Import Models.C10_seq.", "Definition run := run_variance.", terms,
+                          shard=max(16, len(terms) // 16 + 1))
+    for (case, key, got, mean, k), r in zip(jobs, res):
+        n = len(mean)
+        rd = C.Reader(r)
+        floor = float(rd.q())
+        wv = [float(x) for x in rd.qs(n)]
+        wsd = [math.sqrt(x) for x in wv]
+        wlo = [mean[i] - 2 * wsd[i] for i in range(n)]
+        whi = [mean[i] + 2 * wsd[i] for i in range(n)]
+        rt = DT_RTOL[case["dtype"]]
+        names = ["variance", "stddev", "confidence_region-lower", "confidence_region-upper", "variance-after-confidence_region",
+                 "to_data_independent_dist-mean", "to_data_independent_dist-stddev"]
+        wants = [wv, wsd, wlo, whi, wv, mean, wsd]
+        for nm, g_, w_ in zip(names, got, wants):
+            scale = [max(abs(mean[i]), wsd[i]) if "confidence" in nm else 0.0 for i in range(n)]
+            if not all(C.close(g_[i], w_[i], rt * scale[i] + 1e-300, rt) for i in range(n)):
+                out.fail("%s:%s" % (key, nm), "%s of a %s distribution (process default dtype %s) is not the one of max(diag, min_variance(%s) = %g)"
+                         % (nm, case["dtype"], case["default_dtype"], case["dtype"], floor), case, impl=g_, model=w_)
+                break
+
+
+# --------------------------------------------------------------------------- operation sequences on one object
+
+SEQ_REPS = ["dense", "lazydense", "diag", "root", "lazysum", "rootwide", "lowrankdiag", "kron", "kronsum", "rootsum", "lazybroadcast"]
+SEQ_OBS = ["scale_tril", "log_prob-cholesky", "log_prob-fast", "variance", "rsample", "covariance_matrix", "entropy", "precision_matrix",
+           "confidence_region", "kl", "none"]
+SEQ_OPS = ["mul-neg", "div-neg", "mul-pos", "div-pos", "add-const", "add-mvn", "expand", "unsqueeze", "getitem-event", "getitem-batch",
+           "add_jitter", "mul-neg"]
+
+
+def seq_make(n, bshape, rep, seed):
+    from gpytorch.distributions import MultivariateNormal as MVN
+    from linear_operator.operators import DenseLinearOperator
+    if rep == "lazydense":
+        d, mean, cov = make(n, bshape, "dense", seed=seed, full_rank=True)
+        return MVN(mean, DenseLinearOperator(cov)), mean, cov
+    return make(n, bshape, rep, seed=seed, full_rank=True)
+
+
+class SeqObj:
+    """one object of a sequence: the distribution, its batch shape / event size, and per batch element (row-major) the history
+    (index of the start element, tuple of Coq operation terms) the Coq model replays"""
+
+    def __init__(self, dist, bshape, n, elems, made_by, depth):
+        self.dist, self.bshape, self.n, self.elems, self.made_by, self.depth = dist, tuple(bshape), n, elems, made_by, depth
+        self.observed = []
+
+
+def seq_refs(n, seed):
+    g = torch.Generator().manual_seed(seed * 50021 + n)
+    v = dyadic(g, n)
+    mq = dyadic(g, n)
+    A = dyadic(g, n, n, den=2, rng=3)
+    return v, mq, A @ A.transpose(-1, -2) / 4 + torch.eye(n) * 1.5
+
+
+def seq_observe(obj, kind, refs):
+    """read something from the object (this is what fills its caches); returns {name: tensor}"""
+    import gpytorch
+    from gpytorch.distributions import MultivariateNormal as MVN
+    from torch.distributions import kl_divergence
+    d, n = obj.dist, obj.n
+    v, mq, cq = refs[n]
+    if kind == "scale_tril":
+        return {"scale_tril": d.scale_tril}
+    if kind in ("log_prob-cholesky", "log_prob-fast"):
+        with gpytorch.settings.fast_computations(log_prob=(kind == "log_prob-fast")), gpytorch.settings.max_cholesky_size(10 ** 6):
+            return {kind: d.log_prob(v)}
+    if kind == "variance":
+        return {"variance": d.variance, "stddev": d.stddev}
+    if kind == "rsample":
+        bs = d.base_sample_shape[-1]
+        e = torch.cat([torch.zeros(1, bs), torch.eye(bs)]).reshape(bs + 1, *([1] * len(obj.bshape)), bs).expand(bs + 1, *obj.bshape, bs)
+        s = d.rsample(base_samples=e.clone())
+        cols = s[1:] - s[:1]                                   # columns of the root used: bs x batch x n
+        return {"rsample-zero": s[0], "rsample-covariance": torch.einsum("k...i,k...j->...ij", cols, cols)}
+    if kind == "covariance_matrix":
+        return {"mean": d.mean, "covariance_matrix": d.covariance_matrix, "lazy_covariance_matrix": d.lazy_covariance_matrix.to_dense()}
+    if kind == "entropy":
+        return {"entropy": d.entropy()}
+    if kind == "precision_matrix":
+        return {"precision_matrix": d.precision_matrix}
+    if kind == "confidence_region":
+        lo, hi = d.confidence_region()
+        return {"confidence_region-lower": lo, "confidence_region-upper": hi}
+    if kind == "kl":
+        ref = MVN(mq, cq)
+        return {"kl-to-ref": kl_divergence(d, ref), "kl-from-ref": kl_divergence(ref, d)}
+    if kind == "independent":
+        ind = d.to_data_independent_dist()
+        return {"to_data_independent_dist-mean": ind.mean, "to_data_independent_dist-stddev": ind.stddev}
+    return {}
+
+
+def seq_transform(obj, op, rng, seq_seed, force=None):
+    """apply one public operation that yields a new object; returns the new SeqObj or None if the operation does not apply"""
+    d, n, bshape = obj.dist, obj.n, obj.bshape
+    numel = int(math.prod(bshape))
+    ids = torch.arange(numel).reshape(bshape)
+    pre = ("SObserve",) if obj.observed else ()
+    hist = lambda i, *t: (obj.elems[i][0], obj.elems[i][1] + pre + tuple(t))  # noqa: E731
+    if op in ("mul-neg", "mul-pos", "div-neg", "div-pos"):
+        a = rng.choice([2.0, 0.5, 3.0, 1.5, 4.0, 2] if op.startswith("mul") else [2.0, 0.5, 4.0, 0.25, 2])
+        if op.endswith("neg"):
+            a = -a
+        if rng.random() < 0.15 and op.endswith("neg"):
+            a = -1.0 if isinstance(a, float) else -1
+        new = d * a if op.startswith("mul") else d / a
+        term = "%s %s" % ("SMul" if op.startswith("mul") else "SDiv", C.qc_lit(a))
+        return SeqObj(new, bshape, n, [hist(i, term) for i in range(numel)], "%s(%r)" % (op, a), obj.depth + 1)
+    if op == "add-const":
+        c = rng.choice([2.5, -0.75, 1, -2])
+        return SeqObj(d + c, bshape, n, [hist(i, "SAddC %s" % C.qc_lit(c)) for i in range(numel)], "add-const(%r)" % c, obj.depth + 1)
+    if op == "add_jitter":
+        eps = rng.choice([0.125, 0.5, 2.0 ** -10])
+        return SeqObj(d.add_jitter(eps), bshape, n, [hist(i, "SJitter %s" % C.qc_lit(eps)) for i in range(numel)], "add_jitter(%r)" % eps,
+                      obj.depth + 1)
+    if op == "add-mvn":
+        from linear_operator.operators import RootLinearOperator, KroneckerProductLinearOperator
+        force = force or {}
+        rep2 = force.get("rep2") or rng.choice(SEQ_REPS)
+        ob = force["batch"] if "batch" in force else (bshape if rng.random() < 0.6 else bshape[1:])
+        ob = tuple(ob)
+        d2, m2, c2 = seq_make(n, ob, rep2, force["seed"] if "seed" in force else seq_seed * 31 + obj.depth + 7)
+        m2b, c2b = m2.expand(*bshape, n).reshape(numel, n), c2.expand(*bshape, n, n).reshape(numel, n, n)
+        swap = force["swap"] if "swap" in force else rng.random() < 0.3
+        left, right = (d2, d) if swap else (d, d2)
+        if not force and isinstance(right.lazy_covariance_matrix, RootLinearOperator):
+            # known finding C10-linear-operator-add-low-rank (X + RootLinearOperator caches a wrong root of the sum): this operand class
+            # is probed on its own, with its own keys, by the "sum-density" family below; sequences keep a root operand on the left
+            left, right = right, left
+            if isinstance(right.lazy_covariance_matrix, RootLinearOperator):
+                return None
+        if not force and all(isinstance(x.lazy_covariance_matrix, KroneckerProductLinearOperator) for x in (left, right)):
+            # known finding C10-linear-operator-sum-kronecker-scaled (Kronecker + Kronecker, then * scalar: logdet raises): probed by the
+            # "sum-density ... scaled" family below; kept out of the random sequences
+            return None
+        new = left + right
+        return SeqObj(new, bshape, n, [hist(i, "SAddInd %s %s" % (C.qc_vec(m2b[i].tolist()), C.qc_mat(c2b[i].tolist()))) for i in range(numel)],
+                      "add-mvn(%s, batch %s)" % (rep2, list(ob)), obj.depth + 1)
+    if op == "expand":
+        if numel > 3 or len(bshape) > 1:
+            return None
+        tgt = (2,) + bshape
+        nid = ids.expand(tgt)
+        return SeqObj(d.expand(torch.Size(tgt)), tgt, n, [hist(int(i), "SKeep") for i in nid.reshape(-1)], "expand(%s)" % list(tgt), obj.depth + 1)
+    if op == "unsqueeze":
+        if len(bshape) > 1:
+            return None
+        dim = rng.randint(-len(bshape) - 1, len(bshape))
+        nid = ids.unsqueeze(dim if dim >= 0 else len(bshape) + dim + 1)
+        return SeqObj(d.unsqueeze(dim), tuple(nid.shape), n, [hist(int(i), "SKeep") for i in nid.reshape(-1)], "unsqueeze(%d)" % dim, obj.depth + 1)
+    if op == "getitem-batch":
+        if not bshape:
+            return None
+        idx = rng.choice([0, -1, slice(0, 1), slice(None, None, 2), slice(None)] + ([(slice(None), 0)] if len(bshape) > 1 else []))
+        nid = ids[idx]
+        if nid.numel() == 0:
+            return None
+        return SeqObj(d[idx], tuple(nid.shape), n, [hist(int(i), "SRebuild") for i in nid.reshape(-1)], "getitem-batch(%s)" % C.jsonable(idx),
+                      obj.depth + 1)
+    if op == "getitem-event":
+        if n < 2:
+            return None
+        choice = rng.choice(["head", "tail", "step", "perm", "perm-ellipsis"])
+        last = {"head": slice(0, n - 1), "tail": slice(1, None), "step": slice(None, None, 2),
+                "perm": torch.tensor(list(range(n - 1, -1, -1))), "perm-ellipsis": torch.tensor([n - 1] + list(range(n - 1)))}[choice]
+        idx = (Ellipsis, last) if (choice != "perm" or not bshape) else tuple([slice(None)] * len(bshape)) + (last,)
+        pos = torch.arange(n)[last].tolist()
+        return SeqObj(d[idx], bshape, len(pos), [hist(i, "SGet %s" % C.nat_list(pos)) for i in range(numel)], "getitem-event(%s)" % choice,
+                      obj.depth + 1)
+    raise ValueError(op)
+
+
+def seq_sign(made_by):
+    return made_by.split("(")[0]
+
+
+def seq_key(desc, name, rep, o, extra=""):
+    if desc.get("family") == "sum-density":
+        return "sum-density:%s:%s%s%s" % (desc["pair"], "scaled:" if o.depth == 2 else "", name, extra if extra.startswith(":raises") else "")
+    return "seq:%s:%s:after-%s%s" % (name, rep, seq_sign(o.made_by), extra)
+
+
+def run_sequences(out, ctx):
+    """random operation sequences (2..5 object-producing operations, interleaved with reads that fill caches) applied to one
+    object; EVERY object of the chain is then read completely (mean, covariance, variance, stddev, confidence region, log_prob on
+    both paths, KL to and from a reference, entropy, scale_tril, precision, rsample(base_samples), independent marginals) and compared
+    with the Coq state machine (Models/C10_seq.v run_seq: the affine law of the composed sequence, theorem c10_op_sequence_is_affine)"""
+    import gpytorch
+    tier, seed = ctx["tier"], ctx["seed"]
+    nseq = 132 if tier == "quick" else 660
+    mv = gpytorch.settings.min_variance.value(torch.float64)
+    refs = {n: seq_refs(n, seed) for n in range(1, 5)}
+    chains = []
+    for i in range(nseq):
+        rng = random.Random(seed * 1000003 + i)
+        rep = SEQ_REPS[i % len(SEQ_REPS)]
+        first_obs = SEQ_OBS[(i // len(SEQ_REPS)) % len(SEQ_OBS)]
+        first_op = SEQ_OPS[(i + i // (len(SEQ_REPS) * len(SEQ_OBS)) + seed) % len(SEQ_OPS)]
+        n = 2 + (i + seed) % 3
+        bshape = [(), (2,), (), (2,), (2, 3)][(i // 3 + seed) % 5] if rep != "lazybroadcast" else [(2,), (2, 3)][i % 2]
+        desc = dict(what="op-sequence", index=i, rep=rep, n=n, batch_shape=list(bshape), steps=[])
+        try:
+            d0, m0, c0 = seq_make(n, bshape, rep, seed * 13 + i)
+        except Exception as e:
+            out.fail("seq:ctor:%s:raises-%s" % (rep, exc_name(e)), "constructor raised %r" % e, desc)
+            continue
+        numel = int(math.prod(bshape))
+        start = (n, m0.reshape(numel, n), c0.expand(*bshape, n, n).reshape(numel, n, n))
+        objs = [SeqObj(d0, bshape, n, [(j, ()) for j in range(numel)], "ctor", 0)]
+        length = rng.randint(2, 5)
+        failed = False
+        for step in range(length):
+            cur = objs[-1]
+            kinds = [first_obs] if step == 0 else [rng.choice(SEQ_OBS) for _ in range(rng.choice([0, 0, 1, 1, 2]))]
+            for kind in kinds:
+                if kind == "none":
+                    continue
+                desc["steps"].append("read " + kind)
+                try:
+                    cur.observed.append((kind, seq_observe(cur, kind, refs)))
+                except Exception as e:
+                    out.fail("seq:%s:%s:after-%s:raises-%s" % (kind, rep, seq_sign(cur.made_by), exc_name(e)),
+                             "reading %s raised %r after the operations %s" % (kind, e, desc["steps"]), dict(desc))
+                    failed = True
+            if failed:
+                break
+            new = None
+            for attempt in range(6):
+                op = first_op if (step == 0 and attempt == 0) else rng.choice(SEQ_OPS)
+                try:
+                    new = seq_transform(cur, op, rng, seed * 977 + i)
+                except Exception as e:
+                    desc["steps"].append(op)
+                    out.fail("seq:%s:%s:after-%s:raises-%s" % (op, rep, seq_sign(cur.made_by), exc_name(e)),
+                             "%s raised %r after the operations %s" % (op, e, desc["steps"][:-1]), dict(desc))
+                    failed = True
+                    break
+                if new is not None:
+                    break
+            if failed or new is None:
+                break
+            desc["steps"].append(new.made_by)
+            objs.append(new)
+        chains.append((desc, objs, start, rep))
+    # sum-density probe: d1 + d2 for EVERY ordered pair of representations (equal batch shapes at n = 3; batch (2,) + unbatched at
+    # n = 2), then the complete read of the sum.  Data independent of the run's seed: the failures of the known finding
+    # C10-linear-operator-add-low-rank (right operand with a RootLinearOperator covariance) are the same set in every run
+    for n, bl, br in ([(3, (), ()), (2, (2,), ())] if tier == "quick" else [(n_, bl_, br_) for n_ in (1, 2, 3, 4) for bl_, br_ in (((), ()), ((2,), ()), ((2,), (2,)))]):
+        for r1 in SEQ_REPS:
+            for r2 in SEQ_REPS:
+                if r1 == "lazybroadcast" and not bl:
+                    continue
+                desc = dict(what="sum-density", family="sum-density", pair="%s+%s" % (r1, r2), rep=r1, n=n, batch_shape=list(bl), index=len(chains),
+                            steps=[])
+                try:
+                    d0, m0, c0 = seq_make(n, bl, r1, 101)
+                    numel = int(math.prod(bl))
+                    start = (n, m0.reshape(numel, n), c0.expand(*bl, n, n).reshape(numel, n, n))
+                    o0 = SeqObj(d0, bl, n, [(j, ()) for j in range(numel)], "ctor", 0)
+                    o1 = seq_transform(o0, "add-mvn", None, 0, force=dict(rep2=r2, batch=br, swap=False, seed=202))
+                except Exception as e:
+                    out.fail("sum-density:%s+%s:raises-%s" % (r1, r2, exc_name(e)), "d1 + d2 raised %r" % e, desc)
+                    continue
+                desc["steps"].append(o1.made_by)
+                objs = [o0, o1]
+                structured = ("kron", "kronsum", "lowrankdiag", "root", "rootwide")
+                if tier != "quick" or (r1 in structured and r2 in structured):
+                    # ... and the sum scaled by a negative number (the sum operator of two structured operands has its own scaling code)
+                    try:
+                        objs.append(seq_transform(o1, "mul-neg", random.Random(len(chains)), 0))
+                        desc["steps"].append(objs[-1].made_by)
+                    except Exception as e:
+                        out.fail("sum-density:%s+%s:scaled:raises-%s" % (r1, r2, exc_name(e)), "(d1 + d2) * a raised %r" % e, desc)
+                chains.append((desc, objs, start, r1))
+    # the model's answers: one Coq case per distinct element history
+    memo, terms = {}, []
+
+    def term_index(start, n_final, hist):
+        j, ops = hist
+        key = (id(start), j, ops, n_final)
+        if key not in memo:
+            v, mq, cq = refs[n_final]
+            memo[key] = len(terms)
+            terms.append("(%d%%nat, %s, %s, [%s], %s, %s, %s, %s)" % (start[0], C.qc_vec(start[1][j].tolist()), C.qc_mat(start[2][j].tolist()),
+                                                                 "; ".join(ops), C.qc_lit(mv), C.qc_vec(v.tolist()), C.qc_vec(mq.tolist()),
+                                                                 C.qc_mat(cq.tolist())))
+        return memo[key]
+
+    for desc, objs, start, rep in chains:
+        for o in objs:
+            o.tix = [term_index(start, o.n, h) for h in o.elems]
+    res = C.coq_run_cases("C10_seq", IMPORTS + "\nFrom GPV Require Import Models.C10_seq.", "Definition run := run_seq.", terms,
+                          shard=max(8, len(terms) // 32 + 1))
+    dec = []
+    for r in res:
+        rd = C.Reader(r)
+        k = rd.int()
+        w = dict(n=k, mean=[float(x) for x in rd.qs(k)], cov=[[float(x) for x in row] for row in rd.qmat(k, k)], var=[float(x) for x in rd.qs(k)])
+        for nm in ("log_prob", "kl-to-ref", "kl-from-ref"):
+            w[nm] = float(rd.expr()) if rd.int() == 1 else float("nan")
+        w["entropy"] = float(rd.expr())
+        dec.append(w)
+    for desc, objs, start, rep in chains:
+        for oi, o in enumerate(objs):
+            case = dict(desc, object=oi, made_by=o.made_by, steps=desc["steps"])
+            if desc.get("family") == "sum-density":
+                if oi == 0:
+                    continue
+                out.case(case, True, label="sum-density")
+            else:
+                out.case(case, oi > 0, label="op-sequence:object-%s" % ("start" if oi == 0 else seq_sign(o.made_by)))
+            W = [dec[t] for t in o.tix]
+            if any(w["n"] != o.n for w in W):
+                out.fail("model:seq:event-size", "Coq model and driver disagree on the event size", case)
+                continue
+            b, n = o.bshape, o.n
+            T = lambda name, *tail: torch.tensor([w[name] for w in W]).reshape(tuple(b) + tuple(tail))  # noqa: E731
+            want = {"mean": T("mean", n), "covariance_matrix": T("cov", n, n), "variance": T("var", n), "log_prob": T("log_prob"),
+                    "kl-to-ref": T("kl-to-ref"), "kl-from-ref": T("kl-from-ref"), "entropy": T("entropy")}
+            primed = sorted(set(k for k, _ in o.observed))
+            reads = list(o.observed)
+            order = ["covariance_matrix", "variance", "log_prob-cholesky", "log_prob-fast", "kl", "entropy", "scale_tril", "precision_matrix",
+                     "rsample", "confidence_region", "independent"]
+            random.Random(seed * 7 + desc["index"] * 11 + oi).shuffle(order)
+            for kind in order:
+                try:
+                    reads.append((kind, seq_observe(o, kind, refs)))
+                except Exception as e:
+                    out.fail(seq_key(desc, kind, rep, o, ":raises-" + exc_name(e)),
+                             "reading %s of the object made by %s raised %r (operations %s; read earlier: %s)" % (kind, o.made_by, e, desc["steps"], primed),
+                             case)
+            if tuple(o.dist.batch_shape) != tuple(b) or tuple(o.dist.event_shape) != (n,):
+                out.fail(seq_key(desc, "shape", rep, o), "batch_shape / event_shape are not those of the operation's result", case,
+                         impl=[list(o.dist.batch_shape), list(o.dist.event_shape)], model=[list(b), [n]])
+                continue
+            bad = set()
+            for kind, vals in reads:
+                for name, got in vals.items():
+                    sd = want["variance"].sqrt()
+                    if name in ("mean", "covariance_matrix", "variance"):
+                        w_, tol = want[name], (1e-12, 1e-12)
+                    elif name == "lazy_covariance_matrix":
+                        w_, tol = want["covariance_matrix"], (1e-12, 1e-12)
+                    elif name == "rsample-zero":
+                        w_, tol = want["mean"], (1e-12, 1e-12)
+                    elif name == "rsample-covariance":
+                        w_, tol = want["covariance_matrix"], (1e-9, 1e-9)
+                    elif name in ("stddev", "to_data_independent_dist-stddev"):
+                        w_, tol = sd, (1e-12, 1e-12)
+                    elif name == "to_data_independent_dist-mean":
+                        w_, tol = want["mean"], (1e-12, 1e-12)
+                    elif name == "confidence_region-lower":
+                        w_, tol = want["mean"] - 2 * sd, (1e-12, 1e-12)
+                    elif name == "confidence_region-upper":
+                        w_, tol = want["mean"] + 2 * sd, (1e-12, 1e-12)
+                    elif name in ("log_prob-cholesky", "log_prob-fast"):
+                        w_, tol = want["log_prob"], (1e-8, 1e-9)
+                    elif name in ("kl-to-ref", "kl-from-ref", "entropy"):
+                        w_, tol = want[name], (1e-8, 1e-9)
+                    elif name == "scale_tril":
+                        ok = tuple(got.shape) == tuple(b) + (n, n) and bool((got.triu(1) == 0).all()) and \
+                            bool((got.diagonal(dim1=-1, dim2=-2) > 0).all()) and \
+                            torch.allclose(got @ got.transpose(-1, -2), want["covariance_matrix"], atol=1e-9, rtol=1e-9)
+                        w_ = None
+                    elif name == "precision_matrix":
+                        ok = tuple(got.shape) == tuple(b) + (n, n) and \
+                            torch.allclose(got @ want["covariance_matrix"], torch.eye(n).expand(*b, n, n), atol=1e-7)
+                        w_ = None
+                    else:
+                        continue
+                    if w_ is not None:
+                        ok = tuple(got.shape) == tuple(w_.shape) and torch.allclose(got, w_, atol=tol[0], rtol=tol[1])
+                    if not ok and name not in bad:
+                        bad.add(name)
+                        out.fail(seq_key(desc, name, rep, o, ":primed" if primed else ""),
+                                 "%s of the object made by %s is not that of the law the operations %s produce (read before the operation that "
+                                 "followed: %s)" % (name, o.made_by, desc["steps"], primed), case, impl=got,
+                                 model=w_ if w_ is not None else want["covariance_matrix"])
+
+
 # --------------------------------------------------------------------------- entry points
 
 def run(out, ctx):
     import traceback
     import time
-    for part in (run_sampling_affine, run_density, run_broadcast, run_getitem):
+    for part in (run_clamp, run_sequences, run_sampling_affine, run_density, run_broadcast, run_getitem):
         t0 = time.time()
         try:
             part(out, ctx)
@@ -802,13 +1342,30 @@ def run(out, ctx):
                 "5 representations, n 2..3) and p + q, each element compared with the closed form of the two slices the Coq "
                 "broadcast model puts there (slices drawn from a pool of 9 different Gaussians per side so that a misplaced "
                 "slice changes the value); expand to every admissible target.  "
+                "Structured operators (RootLinearOperator with a wide n x (n+2) root, LowRankRootAddedDiag, Kronecker, Kronecker + diag, "
+                "lazy sum root + dense) in log_prob, KL on both sides (with themselves, the dense tensor and rotating partners), "
+                "rsample, affine operations and (strided) the index sweep.  Variance clamp: process default dtype float32 and "
+                "float64 x distribution dtype float64 / float32 / float16 x default and two overridden settings.min_variance "
+                "floors x 6 covariance forms x batch (), (2,), marginal variances 1e-12 .. 4 on both sides of every floor, "
+                "variance / stddev / confidence_region / to_data_independent_dist against the Coq clamp at the floor of the "
+                "tensor's dtype.  Operation sequences: 132 (thorough 660) random sequences of 2..5 object-producing operations "
+                "{* and / by positive and negative scalars, + constant, + independent MVN, expand, unsqueeze, event and batch "
+                "indexing, add_jitter} on one object in 11 representations, interleaved with reads that fill caches (scale_tril, "
+                "log_prob on both paths, variance, rsample, covariance, entropy, precision, confidence region, KL; the first read x "
+                "representation x first operation are stratified), then EVERY object of the chain read completely and compared "
+                "with the Coq state machine (run_seq); sum-density probe: d1 + d2 for every ordered representation pair, read "
+                "completely (a right operand with a RootLinearOperator covariance is kept out of the sequences: known finding "
+                "C10-linear-operator-add-low-rank, reported by the probe).  "
                 "non-trivial = valid index selecting >= 1 entry (indexing), n >= 2 (others), shapes differ (sweep)")
     out.extra["tolerances"] = {"gather / affine (exact copies, dyadic data)": 1e-12, "log_prob, KL (float64 Cholesky vs exact rational + mpmath)": 1e-8,
-                               "rsample": 1e-9}
+                               "rsample": 1e-9, "clamp (relative, per dtype)": DT_RTOL}
     out.tested_not_proved = ["KL >= 0 / equality of the Cholesky form with the closed form for covariances WITHOUT a triangular factor of "
                              "positive diagonal (proved for Cholesky-factored P, Q: c10_kl_nonnegative, c10_kl_closed_form_is_cholesky_form)", "log_prob / KL / + broadcasting against the batch (every broadcastable shape pair of rank <= 2, sizes <= 3, compared "
                              "element-wise with the exact density of the slices the proved index map selects)",
                              "sample moments converge (not tested: would be a flaky statistical check)",
+                             "cache consistency of the real object along operation sequences (proved for the model: "
+                             "c10_cache_consistent_along_sequences; the implementation is compared read by read on random sequences)",
+                             "stddev = sqrt(variance), confidence_region = mean -/+ 2 stddev (formed by the driver from the model's clamped variance)",
                              "torch indexing semantics on batch components"]
 
 
